@@ -28,7 +28,7 @@ MANIFEST = dict(
         "small-sample branch: eigenvectors of XX^T/l lift to eigenvectors of the covariance with the same eigenvalue and squared norm l*lambda "
         "(pca_small_sample_agrees, pca_small_sample_agrees_model), encoded training data have covariance diag(eigenvalues) (pca_encoded_covariance) and, with whitening, diag(1,..,1,0,..) "
         "(pca_whitened_covariance); "
-        "LDA: the matrix assembled from second moments is the pooled within-class covariance (lda_pooled_covariance); with z_c*C = m_c the installed linear discriminant ranks classes exactly like the Gaussian log-posterior with shared covariance C "
+        "LDA: the matrix assembled from second moments is the pooled within-class covariance (lda_pooled_covariance, wlda_pooled_covariance for positive weights); with z_c*C = m_c the installed linear discriminant ranks classes exactly like the Gaussian log-posterior with shared covariance C "
         "(lda_bayes_rule_partial: excludes singular covariances whose range misses the class means, witness lda_partial_witness), statistics batch independent (lda_batch_independent); weighted LDA statistics are invariant under scaling all weights "
         "(weights_scale_invariant); FisherLDA's global mean sum_c n_c m_c / n is the mean of the inputs (fisher_mean; the pinned source divides twice, F-C15-6). "
         "The model (Model/Trainers.lean) is tied to the real trainers on every run by a differential correspondence on integer datasets with explicit "
